@@ -156,6 +156,11 @@ def execute(acc, g, case):
 
 def run_batch(b):
     acc = harness.Acc()
+    if b.get("real"):
+        # the application layer as shipped: worker process, Manager queues, real loopback (bvm/realapp.py)
+        from bvm import realnet
+        realnet.run_cases(acc, b["real"])
+        return acc
     g = Gen(b["seed"])
     for case in b["cases"]:
         execute(acc, g, case)
@@ -174,12 +179,14 @@ def main(tier, seed):
                       "outcomes": OUTCOMES if rng.random() < 0.5 else rng.sample(OUTCOMES, 4)})
     nb = 16 if q else 64
     batches = [{"cases": cases[i::nb], "seed": seed * 17 + i} for i in range(nb)]
+    for i in range(3 if q else 16):
+        batches.append({"real": [{"kind": "app", "seed": seed * 389 + i * 23 + j, "judge": "dispatch"} for j in range(1 if q else 4)]})
     acc = harness.run_workers("checks.c13_dispatch", "run_batch", batches, 3000)
     return harness.finish(PROP, tier, seed, "exploration", acc, RULE,
                           ["workers are in-process (fake manager, never started as processes); the connection layer below a Worker is a recording stub",
                            "requests without Session-Id or origin AVPs are dispatched and observed, not judged (the fallback cannot be built for them)",
                            "a handler raising one of the library's BaseException-derived errors is outside the statement's 'standard exception' and is not generated"],
-                          t0, require_counters=("dispatches", "fallbacks_judged", "answers_judged"))
+                          t0, require_counters=("dispatches", "fallbacks_judged", "answers_judged", "real_loopback_ok"))
 
 
 def replay(w):
